@@ -88,6 +88,20 @@ pub fn dispatch(_st: &mut State, op: &str, f: &[String]) -> String {
             let m = matcher_for(&f[0]);
             cmp_str(m.compare_to_latest(&f[1], &f[2])).into()
         }
+        // serde's view of the configuration: from_str -> Value -> LspConfig (as the backend does with the client's answer)
+        "cfg.parse" => {
+            let Ok(v) = serde_json::from_str::<serde_json::Value>(&f[0]) else { return "notjson".into() };
+            match serde_json::from_value::<version_lsp::config::LspConfig>(v) {
+                Err(_) => "err".into(),
+                Ok(c) => {
+                    let r = &c.registries;
+                    let flags = [("npm", r.npm.enabled), ("crates_io", r.crates.enabled), ("go_proxy", r.go_proxy.enabled),
+                        ("github_actions", r.github.enabled), ("pnpm_catalog", r.pnpm_catalog.enabled), ("jsr", r.jsr.enabled), ("pypi", r.pypi.enabled)];
+                    let dis: Vec<&str> = flags.iter().filter(|(_, e)| !*e).map(|(n, _)| *n).collect();
+                    format!("ok disabled=[{}] ip={} ri={}", dis.join(","), tf(c.ignore_prerelease), c.cache.refresh_interval)
+                }
+            }
+        }
         // optional oracle for the Cargo reference spec: the semver crate itself
         "oracle.cargo" => match semver::VersionReq::parse(&f[0]) {
             Err(_) => "invalid".into(),
